@@ -28,6 +28,9 @@ REQUIRED_THEOREMS = ["vm_unwind_contract", "vm_unwind_uncaught", "vm_push_handle
 THEOREM_MODULES.append("Yarel.Props.FnsTie.Statements")
 REQUIRED_THEOREMS += ["emit_return_skeleton", "return_statement_skeleton", "throw_statement_skeleton", "try_statement_skeleton",
                       "try_statement_no_clause", "try_flag_brackets_the_try_block"]
+# who writes the state the mechanism models are about: the set of write sites per group of fields, regenerated on every run (Props/StateWrites)
+THEOREM_MODULES.append("Yarel.Props.StateWrites")
+REQUIRED_THEOREMS += ['writers_of_exception_state']
 LEVEL = "proof"
 ASSUMPTIONS = [
     "handler mechanism model Yarel/Model/Handlers.lean transcribes unwind_stack/push/pop/jump_finally/end_finally (tie: event replay)",
